@@ -192,7 +192,7 @@ fn feed_part(tier: Tier) -> Part<'static, LockStep> {
     }
 }
 
-static SYS_RESIZE: LockStep = LockStep { property: "C07", probes: false, seed: None, via_feed: false, merged: false };
+static SYS_RESIZE: LockStep = LockStep { property: "C07", probes: false, seed: None, via_feed: false, merged: true };
 
 /// erasing after the screen changed its size: blanks carry the current pen in the columns
 /// and rows the resize added, too (a small alphabet, deeper; widths around a multiple of 8)
